@@ -2,3 +2,4 @@
 pub mod der;
 pub mod jwk;
 pub mod misc;
+pub mod keys;
